@@ -216,7 +216,7 @@ class C09(Prop):
         "uniformPositive_pos", "uniform_positive_unit", "gaussian_in_bounds", "gauss_table_sizes", "gamma_positive_real_partial", "dirichlet_simplex_real_partial",
         "mem_bytes", "floatstring_fits", "samplers_replay", "mt_constants_published", "model_constants_regenerated", "temper_linear",
         "seed0_create_replays", "seed0_init_replays", "rand64_init_replays", "dump_in_bounds", "dump_in_bounds_reinit", "dump_prefix_out_of_bounds",
-        "rand64_deal_spec_abstract", "rand64_deal_spec_binary64", "rand64_deal_prefix_out_of_range", "rand64_deal_prefix_defect_carrier")] + ["EaselModel.MTP.fill_correct", "EaselModel.MTP.stream_eq_spec"]
+        "rand64_deal_spec_abstract", "rand64_deal_spec_binary64", "vitter_a_terminates", "rand64_deal_prefix_out_of_range", "rand64_deal_prefix_defect_carrier")] + ["EaselModel.MTP.fill_correct", "EaselModel.MTP.stream_eq_spec"]
     claimed = True
     technique = "Lean 4 proof (generic in-place-refill = recurrence theorem, stream invariant by induction, roll/deal arithmetic) + exact differential correspondence of the executable model with the ASan/UBSan-built C generators"
     level_text = ("Theorems for all seeds and all stream positions: the model's MT19937 / MT19937-64 / LCG output equals the reference recurrence across any number of refills; "
@@ -553,6 +553,28 @@ class C09(Prop):
                 else: exp = "ok %d" % (e >> 1)
                 if l != exp:
                     return Failure("monitor", "%s stream of seed %d: %s at stream position %d returned %s, the documented function of the reference word %d is %s" % (name, r.seed, o, p0, l, e, exp))
+            elif o in ("roll", "roll64", "unipos", "deal"):
+                # derived draws whose consumption is a simple function of the words: recomputed from the reference stream
+                p0 = r.pos
+                if o in ("roll", "roll64"):
+                    n = int(kv["n"]); f = (M32 if o == "roll" else M64) // n
+                    for _ in range(100000):
+                        v = r.next() // f
+                        if v < n: break
+                    exp = "ok %d" % v
+                elif o == "unipos":
+                    for _ in range(100000):
+                        e = r.next()
+                        if e: break
+                    exp = "ok " + dbits(e / 4294967296.0)
+                else:
+                    m, n = int(kv["m"]), int(kv["n"]); got = []; j = 0
+                    while j < n and len(got) < m:
+                        if float(n - j) * (r.next() / 4294967296.0) < float(m - len(got)): got.append(j)
+                        j += 1
+                    exp = "ok " + ",".join(map(str, got))
+                if l != exp:
+                    return Failure("monitor", "%s stream of seed %d: %s at stream position %d returned %s; the documented function of the reference stream gives %s" % (name, r.seed, op, p0, l[:80], exp[:80]))
             else:
                 ref[b] = None      # consumption depends on the values: position unknown until the next seeding
         return None
